@@ -188,6 +188,27 @@ impl<'a> Machine<'a> {
                     _ => Ok(false),
                 }
             }
+            syn::Pat::Tuple(t) if t.elems.iter().any(|e| matches!(e, syn::Pat::Rest(_))) => match v {
+                V::Tuple(vs) => {
+                    let r = t.elems.iter().position(|e| matches!(e, syn::Pat::Rest(_))).unwrap();
+                    let after = t.elems.len() - r - 1;
+                    if vs.len() < r + after {
+                        return Ok(false);
+                    }
+                    for (pp, vv) in t.elems.iter().take(r).zip(vs) {
+                        if !self.pat_matches(pp, vv)? {
+                            return Ok(false);
+                        }
+                    }
+                    for (pp, vv) in t.elems.iter().skip(r + 1).zip(&vs[vs.len() - after..]) {
+                        if !self.pat_matches(pp, vv)? {
+                            return Ok(false);
+                        }
+                    }
+                    Ok(true)
+                }
+                _ => Ok(false),
+            },
             syn::Pat::Tuple(t) => match v {
                 V::Tuple(vs) if vs.len() == t.elems.len() => {
                     for (pp, vv) in t.elems.iter().zip(vs) {
@@ -360,6 +381,32 @@ impl<'a> Machine<'a> {
         }
         self.env.pop();
         Ok(last)
+    }
+
+    /// Run a statement list in the current scope, statement by statement; a statement the interpreter cannot
+    /// evaluate is skipped (its bindings stay unbound), a `return` ends the run with its value. Used by rules that
+    /// interpret the head of a function up to a decision they are interested in.
+    pub fn run_tolerant(&mut self, stmts: &[syn::Stmt]) -> Option<V> {
+        for s in stmts {
+            let r: Result<(), String> = match s {
+                syn::Stmt::Local(l) => match &l.init {
+                    Some(i) => match self.eval(&i.expr) {
+                        Ok(v) => self.pat_matches(&l.pat, &v).map(|_| ()),
+                        Err(e) => Err(e),
+                    },
+                    None => Ok(()),
+                },
+                syn::Stmt::Expr(e, _) => self.eval(e).map(|_| ()),
+                syn::Stmt::Macro(m) => self.eval_macro(&m.mac).map(|_| ()),
+                syn::Stmt::Item(_) => Ok(()),
+            };
+            if let Err(e) = r {
+                if e == RETURN_SIGNAL {
+                    return Some(self.returning.take().unwrap_or(V::Unit));
+                }
+            }
+        }
+        None
     }
 
     fn eval_macro(&mut self, m: &syn::Macro) -> R {
@@ -828,6 +875,8 @@ impl<'a> Machine<'a> {
                         (V::List(v), "next") => return Ok(V::Opt(v.first().cloned().map(Box::new))),
                         (V::List(v), "len") | (V::List(v), "count") => return Ok(V::Int(v.len() as i128)),
                         (V::List(v), "is_empty") => return Ok(V::Bool(v.is_empty())),
+                        (V::List(v), "last") => return Ok(V::Opt(v.last().cloned().map(Box::new))),
+                        (V::List(v), "first") => return Ok(V::Opt(v.first().cloned().map(Box::new))),
                         (V::List(v), "rev") => return Ok(V::List(v.iter().rev().cloned().collect())),
                         _ => {}
                     }
@@ -906,6 +955,12 @@ impl<'a> Machine<'a> {
                 let k = sm::tsc(e);
                 if let Some(v) = self.get(&k) {
                     return Ok(v);
+                }
+                // an element of a list value
+                if let syn::Expr::Index(ix) = e {
+                    if let (Ok(V::List(items)), Ok(V::Int(i))) = (self.eval(&ix.expr), self.eval(&ix.index)) {
+                        return items.get(i as usize).cloned().ok_or_else(|| "index out of bounds: the interpreted code panics".to_string());
+                    }
                 }
                 // a field of a record value
                 if let syn::Expr::Field(f) = e {
